@@ -67,6 +67,14 @@ theorem matvec2d_normalizer (n : Normalizer) (x : Mat) (hx : x.nRow = n.adj.nCol
     Mat.Eqv (n.matmat x) (n.dense.mul x) ∧ Mat.Eqv (n.rmatmat x) (n.dense.transpose.mul x) :=
   ⟨Normalizer.matmat_eqv_dense n x hx, Normalizer.rmatmat_eqv_dense n x⟩
 
+/-- **every 2-d branch**: a direct call `operator._matvec(X)` with a 2-d array (SparseLR, Normalizer and its
+transposed product, Laplacian, CoNeighbor, Polynome's Horner loop on matrices) multiplies by the dense matrix of
+the expression -/
+theorem denote_op_matvec2d (e : OpExpr) (hreg : e.RegNonneg = true) (o : Op) (h : e.eval = .ok o)
+    (x y : Mat) (hx : x.nRow = o.nCol) (hy : o.matvec2d x = .ok y) : Mat.Eqv y (e.denote.mul x) := by
+  obtain ⟨hw, he⟩ := OpExpr.denote_spec e hreg o h
+  exact (Op.matvec2d_eqv hw hx hy).trans (Mat.Eqv.mul he (Mat.Eqv.refl x))
+
 /-- **row, column and total sums of a SparseLR** are the sums of the dense matrix it denotes -/
 theorem slr_sums (e : OpExpr) (hreg : e.RegNonneg = true) (s : SLR) (h : e.eval = .ok (.slr s)) :
     s.sum1 = e.denote.rowSums ∧ (∀ y, s.sum0 = .ok y → y = e.denote.transpose.rowSums) ∧
